@@ -286,6 +286,20 @@ def r7_3(ctx, R, mus):
                             if same_vec and len_ok and b.dominates(rbb, bb):
                                 ok = q_from_iter
                                 det = "buffer = resize_with(%s) of the stored queue; queue from FromIterator=%s" % (expr_str(ln), q_from_iter)
+                    if not ok:
+                        # collect form: (0..capacity(queue)).map(|_| MaybeUninit::uninit()).collect()
+                        x = buf
+                        while x[0] == "call" and re.search(r"::(into|into_boxed_slice|from)$", x[1] or "") and x[2]:
+                            x = x[2][0]
+                        if x[0] == "call" and (x[1] or "").endswith("::collect") and x[2]:
+                            it = x[2][0]
+                            while it[0] == "call" and re.search(r"::(map|into_iter)$", it[1] or "") and it[2]:
+                                it = strip_refs(it[2][0])
+                            if it[0] == "agg" and it[1].endswith("Range::Range") and it[2][0][0] == "const" and it[2][0][2] == "0":
+                                ln = it[2][1]
+                                if ln[0] == "call" and (ln[1] or "").endswith("::capacity") and strip_refs(ln[2][0]) == q:
+                                    ok = q_from_iter
+                                    det = "buffer = collect over 0..%s of the stored queue; queue from FromIterator=%s" % (expr_str(ln), q_from_iter)
                 ctx.ob("R7.3", b, "buffer-len==queue-capacity", ok, b.loc(bb), det)
     ctx.floor("R7.3", "constructors", n, 2)
 
